@@ -205,6 +205,11 @@ func (Engine) Generate(r *simcore.RNG, tier string, idx int) *simcore.Plan {
 			c[fmt.Sprintf("rec%d", g)] = r.Range(1, 1000)
 		}
 	}
+	if r.Chance(0.1) {
+		// distribution records that exist but weigh nothing (a governance proposal may install them): the whole
+		// pool-incentives share then goes to the community pool, as without records
+		c["reczero"] = 1
+	}
 
 	left := r.Range(5, 20)
 	if r.Chance(0.4) {
@@ -515,7 +520,17 @@ func (Engine) Execute(run *simcore.Run) {
 			recs = append(recs, poolincentivestypes.DistrRecord{GaugeId: uint64(g), Weight: osmomath.NewInt(v)})
 		}
 	}
-	if len(recs) > 0 {
+	if p.Cfg("reczero", 0) == 1 {
+		recs = []poolincentivestypes.DistrRecord{{GaugeId: 0, Weight: osmomath.ZeroInt()}}
+		if ng >= 1 {
+			recs = append(recs, poolincentivestypes.DistrRecord{GaugeId: 1, Weight: osmomath.ZeroInt()})
+		}
+		w.hasRec0 = false
+		if err := n.App.PoolIncentivesKeeper.ReplaceDistrRecords(n.Ctx, recs...); err != nil {
+			panic(fmt.Sprintf("setup: zero-weight distribution records: %v", err))
+		}
+		run.Probe("zero-weight-distribution-records")
+	} else if len(recs) > 0 {
 		if err := n.App.PoolIncentivesKeeper.ReplaceDistrRecords(n.Ctx, recs...); err != nil {
 			panic(fmt.Sprintf("setup: distribution records: %v", err))
 		}
